@@ -46,6 +46,13 @@ impl Monitor for C06 {
             let mut u = t.spec.clone(); u.name = "u".into();
             case["tables"] = json!(format!("{} {}", t.spec.text(), u.text()));
         }
+        // JSON flavour, sometimes: CONVERT on the TEXT columns too (a JSON string converts to itself; null, numbers and the other
+        // non-strings give no value)
+        if t.json && rng.chance(1, 4) {
+            for c in t.spec.cols.iter_mut() { if c.ty == crate::val::Ty::Text && c.modifier == Modifier::None { c.modifier = Modifier::Convert; } }
+            let mut u = t.spec.clone(); u.name = "u".into();
+            case["tables"] = json!(format!("{} {}", t.spec.text(), u.text()));
+        }
         // the table of this case, as the generator built it (t may carry the NOT NULL modifier)
         case["spec"] = t.spec.to_json();
         let n = case["lines"].as_array().map(|a| a.len()).unwrap_or(0);
@@ -54,7 +61,12 @@ impl Monitor for C06 {
         for _ in 0..k {
             let pos = match rng.below(5) { 0 => 0, 1 => n, _ => rng.below(n + 1) };
             let (line, doc): (String, J) = if t.json {
-                match rng.below(9) {
+                match rng.below(11) {
+                    // every field present and explicitly null / every field an empty container
+                    9 => { let fields: Vec<(String, JV)> = t.schema.cols.iter().map(|(n, _)| (n.clone(), JV::Null)).collect();
+                           (format!("{{{}}}", fields.iter().map(|(n, _)| format!("{}:null", json_str(n))).collect::<Vec<_>>().join(",")), JV::Obj(fields).to_case()) }
+                    10 => { let fields: Vec<(String, JV)> = t.schema.cols.iter().map(|(n, _)| (n.clone(), if rng.chance(1, 2) { JV::Obj(vec![]) } else { JV::Arr(vec![]) })).collect();
+                            (format!("{{{}}}", fields.iter().map(|(n, v)| format!("{}:{}", json_str(n), if matches!(v, JV::Obj(_)) { "{}" } else { "[]" })).collect::<Vec<_>>().join(",")), JV::Obj(fields).to_case()) }
                     0 => (String::new(), J::Null), 1 => ("   ".into(), J::Null), 2 => ("not json at all".into(), J::Null), 3 => ("{\"k\":".into(), J::Null), 4 => ("{} {}".into(), J::Null),
                     5 => ("{}".into(), JV::Obj(vec![]).to_case()),
                     6 => ("{\"unrelated\": 1, \"K\": \"a\"}".into(), JV::Obj(vec![("unrelated".into(), JV::Num("1".into())), ("K".into(), JV::Str("a".into()))]).to_case()),
